@@ -1598,5 +1598,11 @@ def lossless_without_k(ctx):
     return res
 
 
+# META update: declined clause 'Newton-Raphson convergence' re-worded
+META['declined'] = [
+    'whether the surface iteration converges and how fast (that unconverged rays are reported non-finite is decided: NEWTON-UNCONVERGED; that start point, sag and normal survive a flat base: FLAT-BASE)' if _d.startswith('Newton-Raphson convergence') else _d
+    for _d in META['declined']]
+
+
 RULES = [lossless_without_k, quadratic_stable, flat_base, newton_unconverged, c01_media_chain, no_stale, records, scatter_unit, snell_law, reflect_law, align_normal, on_surface, normal_gradient,
          frames, trace_order, same_medium, nonfinite]
